@@ -157,6 +157,78 @@ Proof. reflexivity. Qed.
 Lemma for_each_nil fuel xs body env : for_each fuel xs body [] env = Ok (Next env).
 Proof. reflexivity. Qed.
 
+(* expression lists and comprehensions (without conditions) as named fixpoints *)
+Fixpoint evals (env : penv) (l : list pexp) : res (list V * penv (V:=V)) :=
+  match l with
+  | [] => Ok ([], env)
+  | a :: r => let* (v, env1) := eval W env a in let* (vs, env2) := evals env1 r in Ok (v :: vs, env2)
+  end.
+Definition evals0 := fix evals (env : penv) (l : list pexp) : res (list V * penv (V:=V)) :=
+    match l with
+    | [] => Ok ([], env)
+    | a :: r => let* (v, env1) := eval W env a in let* (vs, env2) := evals env1 r in Ok (v :: vs, env2)
+    end.
+Lemma evals0_eq l : forall env, evals0 env l = evals env l.
+Proof.
+  induction l as [|a r IH]; intro env; [reflexivity|]. cbn [evals0 evals].
+  destruct (eval W env a) as [[v env1]|e]; [|reflexivity]. cbn [bind]. rewrite IH. reflexivity.
+Qed.
+Lemma eval_tuple env l : eval W env (PTuple l) = let* (vs, env1) := evals env l in Ok (w_tuple W vs, env1).
+Proof. change (eval W env (PTuple l)) with (let* (vs, env1) := evals0 env l in Ok (w_tuple W vs, env1)). rewrite evals0_eq. reflexivity. Qed.
+Lemma eval_meth env m recv args :
+  eval W env (PMeth m recv args) =
+  let* (rv, env1) := eval W env recv in
+  let* (vs, env2) := evals env1 args in
+  let* (r, rv') := w_meth W m rv vs in
+  Ok (r, match owner_of env recv with Some x => update x rv' env2 | None => env2 end).
+Proof.
+  change (eval W env (PMeth m recv args)) with
+    (let* (rv, env1) := eval W env recv in
+     let* (vs, env2) := evals0 env1 args in
+     let* (r, rv') := w_meth W m rv vs in
+     Ok (r, match owner_of env recv with Some x => update x rv' env2 | None => env2 end)).
+  destruct (eval W env recv) as [[rv env1]|e]; [|reflexivity]. cbn [bind]. rewrite evals0_eq. reflexivity.
+Qed.
+Fixpoint comp_each (xs : list string) (elt : pexp) (vs : list V) (envc : penv) : res (list V) :=
+  match vs with
+  | [] => Ok []
+  | v :: r => let* envb := bind_targets W xs v envc in
+              let* (x, enve) := eval W envb elt in
+              let* rest := comp_each xs elt r enve in Ok (x :: rest)
+  end.
+Lemma comp_each_cons xs elt v r envc :
+  comp_each xs elt (v :: r) envc =
+  let* envb := bind_targets W xs v envc in
+  let* (x, enve) := eval W envb elt in
+  let* rest := comp_each xs elt r enve in Ok (x :: rest).
+Proof. reflexivity. Qed.
+Definition comp0 (xs : list string) (elt : pexp) := fix each (vs : list V) (envc : penv) : res (list V) :=
+         match vs with
+         | [] => Ok []
+         | v :: r =>
+           let* envb := bind_targets W xs v envc in
+           let* (keep, envd) := Ok (true, envb) in
+           if keep then let* (x, enve) := eval W envd elt in let* rest := each r enve in Ok (x :: rest)
+           else each r envd
+         end.
+Lemma comp0_eq xs elt vs : forall envc, comp0 xs elt vs envc = comp_each xs elt vs envc.
+Proof.
+  induction vs as [|v r IH]; intro envc; [reflexivity|]. cbn [comp0 comp_each].
+  destruct (bind_targets W xs v envc) as [envb|e]; [|reflexivity]. cbn [bind].
+  destruct (eval W envb elt) as [[x enve]|e]; [|reflexivity]. cbn [bind]. rewrite IH. reflexivity.
+Qed.
+Lemma eval_comp0 env elt xs it :
+  eval W env (PComp elt xs it []) =
+  let* (iv, env1) := eval W env it in let* items := w_iter W iv in
+  let* out := comp_each xs elt items env1 in Ok (w_list W out, env1).
+Proof.
+  change (eval W env (PComp elt xs it [])) with
+    (let* (iv, env1) := eval W env it in let* items := w_iter W iv in
+     let* out := comp0 xs elt items env1 in Ok (w_list W out, env1)).
+  destruct (eval W env it) as [[iv env1]|e]; [|reflexivity]. cbn [bind].
+  destruct (w_iter W iv) as [items|e]; [|reflexivity]. cbn [bind]. rewrite comp0_eq. reflexivity.
+Qed.
+
 (* frame: the locals a loop does not assign keep their value *)
 Definition frame (mods : list string) (env env' : penv (V:=V)) : Prop :=
   forall x, ~ In x mods -> lookup x env' = lookup x env.
@@ -178,6 +250,7 @@ End Steps.
 Global Opaque exec exec_block.
 Arguments while_loop : simpl never.
 Arguments for_each : simpl never.
+Arguments comp_each : simpl never.
 
 Lemma len3 {A} (a b c : A) : len [a; b; c] = 3. Proof. reflexivity. Qed.
 Lemma len2 {A} (a b : A) : len [a; b] = 2. Proof. reflexivity. Qed.
